@@ -90,7 +90,12 @@ func FormatNumber(num int64) string {
 
 // FormatFloat64 turns a float64 constant into a string.
 func FormatFloat64(floatNum float64) string {
-	return strconv.FormatFloat(floatNum, 'f', -1, 64)
+	s := strconv.FormatFloat(floatNum, 'f', -1, 64)
+	if math.IsInf(floatNum, 0) || math.IsNaN(floatNum) || strings.Contains(s, ".") {
+		return s
+	}
+	// A float with an integral value keeps a fractional part, so that it reads back as a float, not as a number.
+	return s + ".0"
 }
 
 // FormatTime formats a time instant (nanoseconds since Unix epoch) as an ISO 8601 string.
